@@ -43,6 +43,22 @@ class Graph:
                 dq.append(y)
         return seen
 
+    def first_matching_edges(self, srcs, match):
+        """edges (x, y) with match(None, x, y) that leave a node reachable from srcs without using a matching edge"""
+        seen = set(srcs)
+        dq = deque(srcs)
+        out = set()
+        while dq:
+            x = dq.popleft()
+            for y in self.succ.get(x, ()):
+                if match(None, x, y):
+                    out.add((x, y))
+                    continue
+                if y not in seen:
+                    seen.add(y)
+                    dq.append(y)
+        return out
+
     def path(self, src, dst_set, avoid_nodes=(), avoid_edges=()):
         """a shortest path (list of nodes) from src to any node of dst_set, or None"""
         avoid_nodes = set(avoid_nodes)
@@ -138,6 +154,31 @@ class ArgGraph(Graph):
                 prev[y] = x
                 dq.append(y)
         return seen, prev
+
+    def first_matching_edges(self, srcs, match):
+        """program edges (px, py) taken by an explored state with match(state's ARG node, px, py), where that state has not
+        taken a matching edge since it left srcs"""
+        proj = self.proj
+        seen = set()
+        dq = deque()
+        for s_ in srcs:
+            for i in self.inst.get(s_, ()):
+                if i not in seen:
+                    seen.add(i)
+                    dq.append(i)
+        out = set()
+        while dq:
+            x = dq.popleft()
+            px = proj[x]
+            for y in self.asucc[x]:
+                py = proj[y]
+                if match(x, px, py):
+                    out.add((px, py))
+                    continue
+                if y not in seen:
+                    seen.add(y)
+                    dq.append(y)
+        return out
 
     def reachable(self, srcs, avoid_nodes=(), avoid_edges=(), stop_at=(), src_edges=()):
         seen, _ = self._search(srcs, avoid_nodes, avoid_edges, stop_at, src_edges)
